@@ -615,8 +615,14 @@ func (g *gen) gcHistoryOp(repo int, images, indexes, arts []int, extraBlob int) 
 			o := g.p.Objs[images[0]]
 			g.add(Op{K: "del", Mode: "blob", Repo: repo, Obj: g.r.pick(extraBlob, o.Config)})
 		} else if m, ok := g.pushedMan(repo); ok && g.r.chance(50) {
-			// the blob endpoint removes the content of a manifest: its index entry has nothing behind it any more
-			g.add(Op{K: "del", Mode: "blob", Repo: repo, Obj: m})
+			// the blob endpoint removes the content of an untagged manifest: its index entry has nothing behind it any more
+			tagged := false
+			for _, o := range g.tagsIn[repo] {
+				tagged = tagged || o == m
+			}
+			if !tagged {
+				g.add(Op{K: "del", Mode: "blob", Repo: repo, Obj: m})
+			}
 		}
 	case 9:
 		// tag move
